@@ -20,7 +20,8 @@ def eval_line(src, names_entries='', budget=3000, rng=1, probes='', hostfns=True
 
 # ------------------------------------------------------------------ container op sequences (C14, C03)
 LIST_KEYS = ['0', '1', '-1', '2', '1.5', '-2', '7', '-9', 'True', '"0"', 'None', '0.0', '10000', '9999', '-10001', '-0.5', '-1.5', '-2.5', '0.9', '-0.0']
-DICT_KEYS = ['"a"', '"b"', '0', '1', '1.0', '-1', 'True', 'None', '"1"', '"None"', '1.50']
+DICT_KEYS = ['"a"', '"b"', '0', '1', '1.0', '-1', 'True', 'None', '"1"', '"None"', '1.50', '0.00000001', '0.00000001 * 1', '1 / 100000000',
+             '100000000000000000000000000000 * 10', 'round(12345, -2)', '0.0000001', '"1E-8"']
 VALS = ['5', '"v"', '[1]', 'None', '0.5', '{"z": 1}']
 
 
@@ -29,14 +30,16 @@ def list_ops(r):
     return r.choice([f'push(c, {v})', 'pop(c)', f'pop(c, {k})', f'insert(c, {k}, {v})', f'remove(c, {v})', f'c[{k}]',
                      f'c[{k}] = {v}', f'c[{k}] += 1', f'del c[{k}]', f'index_of(c, {v})', 'len(c)', f'{v} in c',
                      f'c[{k}:{k2}]', f'c.push({v})', f'c[{k}] *= 2', 'c + [1]', 'sorted(c, v => 0)', 'reversed(c)',
-                     f'push(c, {v}, {v})', f'c.push(1, 2, 3)', f'insert(c, {k}, {v}, {v})', 'c | push(1, 2)', f'pop(c, {k}, 1)'])
+                     f'push(c, {v}, {v})', f'c.push(1, 2, 3)', f'insert(c, {k}, {v}, {v})', 'c | push(1, 2)', f'pop(c, {k}, 1)',
+                     'push(enumerate(c)[0][1], 9)', 'pe = enumerate(c); push(pe[0][1], 8); pe', 'q = [enumerate(c)[0]]; push(q[0][1], 6)'])
 
 
 def dict_ops(r):
     k, v = r.choice(DICT_KEYS), r.choice(VALS)
     return r.choice([f'c[{k}]', f'c[{k}] = {v}', f'c[{k}] += 1', f'del c[{k}]', f'get(c, {k})', f'get(c, {k}, 7)', 'keys(c)',
                      'values(c)', 'items(c)', 'len(c)', f'{k} in c', f'remove(c, {k})', f'c[{k}] = c', 'pretty(c)',
-                     f'd2 = {{{k}: {v}}}; d2[{k}]', 'sorted(c)', 'str(c)'])
+                     f'd2 = {{{k}: {v}}}; d2[{k}]', 'sorted(c)', 'str(c)', 'push(items(c)[0][1], 9)', 'pp = items(c); push(pp[0][1], 8); pp',
+                     'values(c)[0].push(7)', 'q = [items(c)[0]]; push(q[0][1], 6)'])
 
 
 def is_stmt(op):
@@ -201,7 +204,7 @@ def probe_shapes(r, d, counter):
         return f'probe({counter[0]})'
     if d <= 0 or r.random() < 0.25:
         return leaf()
-    k = r.randrange(21)
+    k = r.randrange(23)
     E = lambda: probe_shapes(r, d - 1, counter)
     if k == 18:
         op = r.choice(['and', 'or'])
@@ -246,6 +249,10 @@ def probe_shapes(r, d, counter):
         return f'(w => [w, {E()}])({E()})' if False else f'apply((w, z) => [{E()}, w, z], {E()}, {E()})'
     if k == 17:
         return f'{r.choice(["min", "max", "round", "replace", "get"])}({E()}, {E()}, {E()})'
+    if k == 21:
+        return f'({E()} {r.choice(["in", "not in"])} [{E()}, {E()}, {E()}])'
+    if k == 22:
+        return f'({E()} in {{{E()}: 1, {E()}: 2}})'
     return leaf()
 
 
@@ -254,8 +261,21 @@ def probe_cases(seed, n):
     for i in range(n):
         r = random.Random(f'{seed}/probe/{i}')
         c = [0]
-        k = r.randrange(8)
-        if k == 0:
+        k = r.randrange(9)
+        ent = ''
+        if k == 8:
+            # sub-expressions of an inline lambda that do not mention its parameter but are NOT constant: they read state a
+            # helper changes, or call a builtin name the host rebinds to an effectful function
+            nm = r.choice(['lower', 'len', 'get', 'min', 'max', 'abs', 'str', 'upper', 'keys'])
+            hof = r.choice(['map([10, 20, 30], x => {b})', 'filter([10, 20, 30], x => {b})', 'sorted([3, 1, 2], x => {b})',
+                            'reduce([1, 2, 3, 4], (a, x) => {b})', 'map([1, 2], x => map([5, 6], y => {b}))'])
+            c[0] += 1
+            body = r.choice([f'add(x) or len(seen)', f'[add(x), len(seen), seen[0]]', f'[x, {nm}({c[0]})]', f'{nm}({c[0]}) and x',
+                             f'[bump(x), get(cnt, "k")]', f'(x if {nm}({c[0]}) else 0)', f'[get(cnt, "k"), bump(x)][0]'])
+            src = ('seen = []; add = v => push(seen, v); cnt = {"k": 0}; bump = v => __setitem__(cnt, "k", cnt["k"] + 1)\n'
+                   'r = ' + hof.format(b=body) + '\n[r, seen, cnt]')
+            ent = f'(S:{hx(nm)} H:probe)'
+        elif k == 0:
             e = probe_shapes(r, 2, c)
             src = f'c = [0, 0]; c[{probe_shapes(r, 1, c)}] = {e}'
         elif k == 1:
@@ -295,7 +315,7 @@ def probe_cases(seed, n):
                 ps.append(f'({j} ret T)')
             elif m == 5:
                 ps.append(f'({j} ret D:0:1:0:c)')
-        cases.append((eval_line(src, '', probes=' '.join(ps), modelparser=True), src + '  probes: ' + ' '.join(ps)))
+        cases.append((eval_line(src, ent, probes=' '.join(ps), modelparser=True), src + '  probes: ' + ' '.join(ps)))
     return cases
 
 
@@ -415,7 +435,7 @@ def alias_cases(seed, n):
             inner = _re0.search(r'\((?:L|M) (\d+)', hv[2:])
             if inner and r.random() < 0.6:
                 ent += f' (S:{hx("q")} (R {inner.group(1)}))'
-        form = r.randrange(37) if shared else r.randrange(30)
+        form = r.randrange(45) if shared else r.choice(list(range(30)) + list(range(37, 45)))
         src0 = {10: 'x = h or []', 11: 'x = [] or h', 12: 'x = h and h', 13: 'x = (h if True else 0)', 14: 'x = h + [[0]]',
                 15: 'x = [h, 1][0]', 16: 'x = {"k": h}["k"]', 17: 'x = apply(v => v, h)', 18: 'x = get({"k": h}, "k")', 19: 'x = h[0:2]',
                 20: 'x = reversed(h)', 21: 'x = sorted(h, v => 0)', 22: 'x = 0; x = x or h', 23: 'c = {}; c["k"] = h or []; x = c["k"]',
@@ -423,6 +443,8 @@ def alias_cases(seed, n):
                 26: 'h = h; x = h', 27: 'x = h; x = x', 28: 'y = h; x = y; y = y', 29: 't = [0]; t[0] = h; t[0] = t[0]; x = t[0]',
                 30: 'g = h; x = g', 31: 'h = g; x = h', 32: 'g = g; x = g', 33: 't = []; t.push(h); t[0] = h; x = t[0]',
                 34: 'h[0] = q; x = h[0]', 35: 'x = g; g = h', 36: 'h["k"] = q; x = h["k"]',
+                37: 'x = items(h)', 38: 'x = enumerate(h)[0]', 39: 'x = [items(h)[0]]', 40: 'c = {}; c["k"] = items(h)[0]; x = c["k"]',
+                41: 'x = [0]; x += items(h)', 42: 'x = enumerate(h)', 43: 'x = (items(h) or [])', 44: 'x = sorted(enumerate(h), v => 0)',
                 0: 'x = h', 1: 'c = [0, 0]; c[0] = h; x = c[0]', 2: 'x = [h, h]', 3: 'd = {}; d["k"] = h; x = d["k"]',
                 4: 'x = [1]; x += h', 5: 'c = [[1]]; c[0] += h; x = c[0]',
                 6: 'x = h; y = h; try_apply(w => y.push(5), 0); try_apply(w => y[0].push(6), 0)',
@@ -430,7 +452,7 @@ def alias_cases(seed, n):
                 9: 'x = h; h.push(1); y = h; try_apply(w => y.push(2), 0)'}[form]
         stmts = [src0]
         for _ in range(r.randint(1, 4)):
-            stmts.append(r.choice(muts).format(t=r.choice(['x', 'h', 'x', 'h', 'x[0]', 'h[0]'] + (['g', 'g', 'q'] if shared else []))))
+            stmts.append(r.choice(muts).format(t=r.choice(['x', 'h', 'x', 'h', 'x[0]', 'h[0]', 'x[0][1]', 'x[1]'] + (['g', 'g', 'q'] if shared else []))))
         import re as _re
         stmts = [s if _re.search(r'(^|[^=!<>])=($|[^=>])', s) or s.startswith('del ') else f'try_apply(w => {s}, 0)' for s in stmts]
         stmts.append('[x, h, try_apply(w => y, 0), try_apply(w => acc, 0), try_apply(w => g, 0), try_apply(w => q, 0)]')
@@ -480,6 +502,29 @@ def builtin_cases(seed, names, n_random):
         s = ARG_SHAPES[r.choice([15, 17, 18, 19, 21, 10, 27, 29])].replace('{n}', '1').replace('{m}', '2')
         src = f'r = {f}(a0, {cb}); [r, a0]'
         cases.append((eval_line(src, f'(S:{hx("a0")} {s})', budget=400), f'{f}({s}, {cb})'))
+    # a lambda of the program in EVERY argument position of every builtin: whatever the builtin hands to it (or does with it)
+    # must be plain data
+    for f in names:
+        if f.startswith('__'):
+            continue
+        for src in (f'r = {f}("abcabc", "b", v => [v]); r', f'r = {f}("abcabc", v => [v]); r', f'r = {f}(v => [v], "abc"); r',
+                    f'r = {f}("a,b", ",", v => [v], 1); r', f'box = []; r = {f}("abcabc", "b", v => push(box, v)); [r, box]',
+                    f'r = {f}([3, 1, 2], v => [v]); r', f'r = {f}({{"k": 1}}, "k", v => [v]); r'):
+            cases.append((eval_line(src, '', budget=400), src))
+    # the argument reached through another call that hands an EXISTING object through (not a fresh one): the builtin must
+    # still treat it as somebody else's object
+    outers = ['sorted', 'reversed', 'shuffle', 'keys', 'values', 'items', 'enumerate', 'sum', 'min', 'max', 'join', 'len', 'str', 'pretty', 'list',
+              'index_of', 'get', 'split', 'map', 'filter']
+    inners = ['reduce([a0], (p, q) => p)', 'reduce([a0, a0], (p, q) => p)', 'reduce([[], a0], (p, q) => q)', 'apply(v => v, a0)', 'max([a0])',
+              'get({{"k": a0}}, "k")', 'rand([a0])', '(a0 or [])', 'filter([a0], v => True)[0]', 'map([a0], v => v)[0]', 'sorted([a0], v => 0)[0]',
+              'ident(a0)', '[a0][0]', '(a0 if True else 0)', 'try_apply(v => v, a0)', 'reversed([a0])[0]', 'list(a0)[0]', 'values({{"k": a0}})[0]']
+    shapes = ['(L 1 I:3 I:1 I:2)', '(L 1 (L 2 I:3 I:1) (L 3 I:0))', '(M 1 (S:62 I:2) (S:61 I:1))', '(L 1 S:62 S:61)']
+    for f in outers:
+        for g in inners:
+            for sh in shapes[:2] if f not in ('keys', 'values', 'items') else shapes[2:3]:
+                extra = ', v => v' if f in ('map', 'filter') else (', ","' if f in ('join', 'split') else (', 0' if f in ('get', 'index_of') else ''))
+                src = f'ident = v => v; r = {f}({g.replace("{{", "{").replace("}}", "}")}{extra}); [r, a0]'
+                cases.append((eval_line(src, f'(S:{hx("a0")} {sh})', budget=600), src))
     return cases
 
 
